@@ -15,7 +15,10 @@ Transcribes, statement by statement,
   pysph/sph/acceleration_eval.py : `MegaGroup._make_data`
   pysph/sph/acceleration_eval_cython_helper.py :
       `get_all_array_names`, `get_known_types_for_arrays`,
-      `get_dest_array_setup`, `get_src_array_setup`, `get_array_declarations`
+      `get_dest_array_setup`, `get_src_array_setup`, `get_array_declarations`,
+      `_compute_group_map`, `get_condition_call`, `get_pre_call`, `get_post_call`
+  pysph/sph/acceleration_eval_cython.mako : where the template puts the
+      `condition` / `pre` / `post` calls of groups and sub-groups
 
 Python sets / dicts are lists here (dicts in insertion order, later entries of an
 association list win where Python overwrites); `sorted(set)` is `sortDedup`.
@@ -483,5 +486,108 @@ def scratchOffset (size tid : Nat) : Nat := tid * aligned8 size
 
 /-- elements allocated: `aligned(size, 8)*self.n_threads` -/
 def scratchAlloc (size nThreads : Nat) : Nat := aligned8 size * nThreads
+
+/-! ## 5. call sites of the group callables (`condition`, `pre`, `post`)
+
+`acceleration_eval_cython_helper.py`: `_compute_group_map`, `get_condition_call`,
+`get_pre_call`, `get_post_call`; `acceleration_eval_cython.mako`: the body of `compute`
+(`if <condition call>:`, the sub-group branch) and `do_group` (`pre` first, `post` last).
+
+The generated `compute` reaches a callable as `self.groups[i].condition(t, dt)` /
+`self.groups[i].data[k].pre()` …, where the expression `self.groups[i]…` is looked up in
+`_group_map`.  That dict is keyed by the (mega-)group OBJECT; `group.name` — the user's
+`name=` label for the profiling output, or `Group_<n>` — is not a key and need not be unique.
+The model is parametric in the key (`key : GNode → κ`) so that this can be stated: the code is
+`key := GNode.uid` (object identity). -/
+
+/-- one (mega-)group as the call-site generation sees it -/
+structure GNode where
+  /-- object identity (hash/eq of a Python object without `__eq__`) -/
+  uid : Nat
+  /-- `group.name`: a label, not an identity -/
+  name : Name
+  hasCond : Bool
+  hasPre : Bool
+  hasPost : Bool
+  deriving Repr, DecidableEq
+
+/-- a top-level group; `subs = []` ⇔ `not group.has_subgroups` (a group with sub-groups has at
+least one), else `subs = group.data` -/
+structure GTop where
+  node : GNode
+  subs : List GNode
+  deriving Repr, DecidableEq
+
+/-- `self.groups[top]` / `self.groups[top].data[sub]` -/
+structure GPos where
+  top : Nat
+  sub : Option Nat
+  deriving Repr, DecidableEq
+
+/-- the groups `_compute_group_map` visits for one `g_idx`, with the expression it stores:
+the group itself, then `enumerate(group.data)` if it has sub-groups -/
+def topNodes (gt : GTop × Nat) : List (GNode × GPos) :=
+  (gt.1.node, ⟨gt.2, none⟩) :: gt.1.subs.zipIdx.map (fun sk => (sk.1, ⟨gt.2, some sk.2⟩))
+
+/-- every group with its position, in the order of
+`for g_idx, group in enumerate(self.object.mega_groups)` -/
+def allNodes (gs : List GTop) : List (GNode × GPos) := gs.zipIdx.flatMap topNodes
+
+section groupmap
+variable {κ : Type} [DecidableEq κ]
+
+/-- `_compute_group_map`: `mapping[<key of group>] = <expression>`, in visiting order -/
+def groupMapBy (key : GNode → κ) (gs : List GTop) : List (κ × GPos) :=
+  (allNodes gs).map (fun np => (key np.1, np.2))
+
+/-- `mapping[k]` after all the assignments: the LAST assignment to `k` wins; `none` is
+`KeyError` -/
+def gmLookup : List (κ × GPos) → κ → Option GPos
+  | [], _ => none
+  | (k', v) :: m, k =>
+    match gmLookup m k with
+    | some w => some w
+    | none => if k' = k then some v else none
+
+inductive Cb where
+  | cond | pre | post
+  deriving Repr, DecidableEq
+
+/-- one `….condition(t, dt)` / `….pre()` / `….post()` in the generated text: `site` = the
+group whose text it stands in, `target` = the group the expression refers to -/
+structure CallSite where
+  kind : Cb
+  site : GPos
+  target : Option GPos
+  deriving Repr, DecidableEq
+
+/-- `% if group.<callable>:` … `helper.get_<callable>_call(group)` -/
+def siteIf (key : GNode → κ) (m : List (κ × GPos)) (b : Bool) (k : Cb) (np : GNode × GPos) :
+    List CallSite :=
+  if b then [⟨k, np.2, gmLookup m (key np.1)⟩] else []
+
+/-- a group of equations: `if <condition>:` around `do_group` = `pre`, …, `post` -/
+def nodeSites (key : GNode → κ) (m : List (κ × GPos)) (np : GNode × GPos) : List CallSite :=
+  siteIf key m np.1.hasCond .cond np ++ siteIf key m np.1.hasPre .pre np ++
+  siteIf key m np.1.hasPost .post np
+
+/-- one iteration of `% for g_idx, group in enumerate(helper.object.mega_groups):` -/
+def topSites (key : GNode → κ) (m : List (κ × GPos)) (gt : GTop × Nat) : List CallSite :=
+  let np : GNode × GPos := (gt.1.node, ⟨gt.2, none⟩)
+  if gt.1.subs.isEmpty then nodeSites key m np
+  else
+    siteIf key m np.1.hasCond .cond np ++ siteIf key m np.1.hasPre .pre np ++
+    (gt.1.subs.zipIdx.map (fun sk => (sk.1, (⟨gt.2, some sk.2⟩ : GPos)))).flatMap
+      (nodeSites key m) ++
+    siteIf key m np.1.hasPost .post np
+
+/-- the call sites of the generated `compute`, in text order -/
+def callSitesBy (key : GNode → κ) (gs : List GTop) : List CallSite :=
+  gs.zipIdx.flatMap (topSites key (groupMapBy key gs))
+
+end groupmap
+
+/-- what the code does: the map is keyed by the group object -/
+def callSites (gs : List GTop) : List CallSite := callSitesBy GNode.uid gs
 
 end PysphVerif.Codegen
